@@ -193,6 +193,8 @@ def run_instance(payload):
             m = ctx.model(*outside)
             if m is not None:
                 res.violations.append({'what': detail, 'input': {'kind': 'filter', 'prog': program_of(m, mirror)}})
+        else:
+            res.xval_path('filter ok', replay, lambda: {'kind': 'filter', 'prog': program_of(ctx.model(), mirror)})
         res.take_stats(ctx.stats); ctx.stats.__init__()
     res.wall_s = time.time() - t0
     return res.to_dict()
